@@ -2497,6 +2497,56 @@ def treats_as_sealed(value: Symbolic) -> bool:
   return value.sym_sealed if sealed_in_scope is None else sealed_in_scope
 
 
+def typing_state(value: Any) -> typing.List[typing.Tuple[Any, ...]]:
+  """Returns what applying a value spec may change in place below `value`.
+
+  `ValueSpec.apply` works in place on a symbolic dict / list that is handed to a
+  typed container: `custom_apply` binds the field's value spec (or overrides
+  `allow_partial`) and `Schema.apply` fills defaults and converts members before
+  the value is known to be acceptable. The returned state allows the caller to
+  put the value back as it was when the application fails.
+
+  Args:
+    value: the value that is about to be applied to a field.
+
+  Returns:
+    A list of (node, value spec, allow_partial, members) for every symbolic
+    dict / list at or below `value` (objects validate themselves).
+  """
+  state = []
+  def _visit(v):
+    if isinstance(v, Symbolic) and isinstance(v, (dict, list)):
+      members = (dict(dict.items(v)) if isinstance(v, dict)
+                 else list(list.__iter__(v)))
+      state.append((v, v._value_spec, v._allow_partial, members))  # pylint: disable=protected-access
+      for c in (members.values() if isinstance(v, dict) else members):
+        _visit(c)
+  _visit(value)
+  return state
+
+
+def restore_typing_state(state: typing.List[typing.Tuple[Any, ...]]) -> None:
+  """Puts the nodes recorded by `typing_state` back as they were."""
+  for v, value_spec, allow_partial, members in state:
+    if (v._value_spec is value_spec and v._allow_partial == allow_partial):  # pylint: disable=protected-access
+      same = (dict(dict.items(v)) if isinstance(v, dict)
+              else list(list.__iter__(v)))
+      if (len(same) == len(members) and all(
+          a is b for a, b in zip(
+              same.values() if isinstance(v, dict) else same,
+              members.values() if isinstance(v, dict) else members))
+          and (not isinstance(v, dict) or list(same) == list(members))):
+        continue
+    v._set_raw_attr('_value_spec', value_spec)  # pylint: disable=protected-access
+    v._set_raw_attr('_allow_partial', allow_partial)  # pylint: disable=protected-access
+    if isinstance(v, dict):
+      dict.clear(v)
+      dict.update(v, members)
+    else:
+      list.__setitem__(v, slice(None), members)
+    v._invalidate_content_cache()  # pylint: disable=protected-access
+
+
 def symbolic_transform_fn(allow_partial: bool):
   """Symbolic object transform function builder."""
 
